@@ -43,15 +43,69 @@ package jsonapi
 //@ ensures added: result == nil ==> rel.FromName in s.Type.Rels && s.Type.Rels[rel.FromName] == rel
 //@ ensures wf: relsWf(s.Type.Rels)
 
+//@ spec scElemsWf(s *SoftCollection) = forall i int :: 0 <= i && i < len(s.col) ==> s.col[i] != nil && srTypeWf(s.col[i])
+//@ spec scIDsKept(s *SoftCollection) = forall i int :: 0 <= i && i < old(len(s.col)) ==> old(s.col[i]).id == old(s.col[i].id)
+
 //@ func SoftCollection.Remove
+//@ flag post-per-return
 //@ flag absolute-quantifiers
 //@ props C19
 //@ requires nonnil: s != nil
-//@ requires elems: scNoNil(s)
-//@ modifies obj[SoftCollection](s), elems[*SoftResource](s.col)
+//@ requires elems: scElemsWf(s)
+//@ modifies obj[SoftCollection](s), elems[*SoftResource](s.col), heap[SoftResource], heap[Type], maps[map[string]any], new[Type], new[map[string]any], new[map[string]Attr], new[map[string]Rel], new[time.Time], new[uint8], new[string]
+//@ ensures ids-kept: scIDsKept(s)
 //@ ensures absent-noop: !old(scHasID(s, id)) ==> s.col == old(s.col) && (forall i int :: 0 <= i && i < len(s.col) ==> s.col[i] == old(s.col[i]))
 //@ ensures length: old(scHasID(s, id)) ==> len(s.col) == old(len(s.col)) - 1
-//@ ensures before: forall i int, j int :: 0 <= i && i < old(len(s.col)) && old(s.col[i].id) == id && (forall m int :: 0 <= m && m < i ==> old(s.col[m].id) != id) && 0 <= j && j < i ==> s.col[j] == old(s.col[j])
+//@ ensures before: forall j int :: 0 <= j && j < len(s.col) && (forall m int :: 0 <= m && m <= j ==> old(s.col[m].id) != id) ==> s.col[j] == old(s.col[j])
 //@ ensures after: forall i int, j int :: 0 <= i && i < old(len(s.col)) && old(s.col[i].id) == id && (forall m int :: 0 <= m && m < i ==> old(s.col[m].id) != id) && i <= j && j < len(s.col) ==> s.col[j] == old(s.col[j + 1])
-//@ ensures elems: scNoNil(s)
+//@ ensures elems: scElemsWf(s)
+//@ loop 0 invariant list: s.col == pre(s.col) && (forall k int :: 0 <= k && k < len(s.col) ==> s.col[k] == pre(s.col[k]))
+//@ loop 0 invariant elems: scElemsWf(s)
+//@ loop 0 invariant ids: forall k int :: 0 <= k && k < len(s.col) ==> s.col[k].id == old(s.col[k].id)
 //@ loop 0 invariant none-so-far: forall k int :: 0 <= k && k <= $idx ==> s.col[k].id != id
+
+//@ func SoftCollection.SetType
+//@ props C19
+//@ requires nonnil: s != nil
+//@ requires elems: scNoNil(s)
+//@ modifies obj[SoftCollection](s), heap[SoftResource]
+//@ ensures typ: s.Type == typ
+//@ ensures same-type: scSameType(s)
+//@ ensures col: s.col == old(s.col) && (forall i int :: 0 <= i && i < len(s.col) ==> s.col[i] == old(s.col[i]) && s.col[i].id == old(s.col[i].id) && s.col[i].data == old(s.col[i].data))
+//@ loop 0 invariant header: s.Type == typ && s.col == pre(s.col) && scNoNil(s)
+//@ loop 0 invariant elems: forall i int :: 0 <= i && i < len(s.col) ==> s.col[i] == pre(s.col[i]) && s.col[i].id == pre(s.col[i].id) && s.col[i].data == pre(s.col[i].data)
+//@ loop 0 invariant done: forall i int :: 0 <= i && i <= $idx ==> s.col[i].Type == typ
+
+//@ func SoftCollection.Resource
+//@ flag post-per-return
+//@ props C19
+//@ requires nonnil: s != nil
+//@ requires elems: scElemsWf(s)
+//@ modifies heap[SoftResource], heap[Type], maps[map[string]any], new[Type], new[map[string]any], new[map[string]Attr], new[map[string]Rel], new[time.Time], new[uint8], new[string]
+//@ ensures list-kept: s.col == old(s.col) && (forall i int :: 0 <= i && i < len(s.col) ==> s.col[i] == old(s.col[i]) && s.col[i].id == old(s.col[i].id))
+//@ ensures found: forall i int :: 0 <= i && i < len(s.col) && old(s.col[i].id) == id && (forall m int :: 0 <= m && m < i ==> old(s.col[m].id) != id) ==> dyn(result) == type[*SoftResource] && num(result) == s.col[i]
+//@ ensures missing: !old(scHasID(s, id)) ==> result == nil
+//@ ensures elems: scElemsWf(s)
+//@ loop 0 invariant list: s.col == pre(s.col) && (forall k int :: 0 <= k && k < len(s.col) ==> s.col[k] == pre(s.col[k]))
+//@ loop 0 invariant elems: scElemsWf(s)
+//@ loop 0 invariant ids: forall k int :: 0 <= k && k < len(s.col) ==> s.col[k].id == old(s.col[k].id)
+//@ loop 0 invariant none-so-far: forall k int :: 0 <= k && k <= $idx ==> s.col[k].id != id
+
+//@ func SoftCollection.Add
+//@ flag absolute-quantifiers
+//@ props C19
+//@ requires nonnil: s != nil && r != nil && s.Type != nil
+//@ requires type-wf: attrsWf(s.Type.Attrs) && relsWf(s.Type.Rels)
+//@ requires res-wf: attrsWf(R_attrs($rh, r)) && relsWf(R_rels($rh, r))
+//@ modifies obj[SoftCollection](s), spare[*SoftResource](s.col), heap[Type], maps[map[string]any], maps[map[string]Attr], maps[map[string]Rel], new[SoftResource], new[*SoftResource], new[Type], new[map[string]any], new[map[string]Attr], new[map[string]Rel], new[time.Time], new[uint8], new[string]
+//@ ensures appended: len(s.col) == old(len(s.col)) + 1 && s.col[old(len(s.col))] != nil && fresh(s.col[old(len(s.col))])
+//@ ensures prefix: forall i int :: 0 <= i && i < old(len(s.col)) ==> s.col[i] == old(s.col[i])
+//@ ensures id: s.col[old(len(s.col))].id == str(R_get($rh, r, "id"))
+//@ ensures typ: s.col[old(len(s.col))].Type == s.Type && s.Type == old(s.Type)
+//@ ensures type-wf: attrsWf(s.Type.Attrs) && relsWf(s.Type.Rels)
+//@ loop 0 invariant sr: sr != nil && fresh(sr) && sr.Type == s.Type && s.Type == pre(s.Type) && sr.id == pre(sr.id) && srTypeWf(sr)
+//@ loop 0 invariant col: s.col == pre(s.col) && unchanged(heap[*SoftResource]) && unchanged(heap[SoftCollection]) && unchanged(heap[SoftResource])
+//@ loop 0 invariant res-wf: attrsWf(R_attrs($rh, r)) && relsWf(R_rels($rh, r))
+//@ loop 1 invariant sr: sr != nil && fresh(sr) && sr.Type == s.Type && s.Type == pre(s.Type) && sr.id == pre(sr.id) && srTypeWf(sr)
+//@ loop 1 invariant col: s.col == pre(s.col) && unchanged(heap[*SoftResource]) && unchanged(heap[SoftCollection]) && unchanged(heap[SoftResource])
+//@ loop 1 invariant res-wf: relsWf(R_rels($rh, r))
